@@ -659,6 +659,7 @@ func c11FirstUse(c *mon.Ctx, r *mon.Rand) {
 	for round := 0; round < rounds; round++ {
 		var wg, start sync.WaitGroup
 		start.Add(1)
+		gh := make([]tally.Gauge, G)
 		for g := 0; g < G; g++ {
 			wg.Add(1)
 			go func(g int) {
@@ -668,11 +669,18 @@ func c11FirstUse(c *mon.Ctx, r *mon.Rand) {
 				sc.Counter("c").Inc(int64(g + 1))
 				sc.Timer("t").Record(time.Duration(g + 1))
 				sc.Histogram("h", vb).RecordValue(2)
-				sc.Gauge("g").Update(float64(g + 1))
+				gh[g] = sc.Gauge("g")
+				gh[g].Update(float64(g + 1))
+				gh[g] = sc.Gauge("g2")
 			}(g)
 		}
 		start.Done()
 		wg.Wait()
+		// every goroutine's handle of g2 is the one gauge: updated one after the
+		// other through each of them, the last update is what the snapshot shows
+		for g := 0; g < G; g++ {
+			gh[g].Update(float64(100 + g))
+		}
 	}
 	snap := ts.Snapshot()
 	sum := int64(G * (G + 1) / 2)
@@ -709,6 +717,11 @@ func c11FirstUse(c *mon.Ctx, r *mon.Rand) {
 				if v := x.Value(); v != math.Trunc(v) || v < 1 || v > float64(G) {
 					c.Violation("snapshot-gauge-first-use", map[string]interface{}{"why": fmt.Sprintf("%s = %v is not one of the values set", x.Name(), v), "case": desc})
 				}
+			}
+		}
+		for _, x := range snap.Gauges() {
+			if x.Name() == pre+"g2" && x.Value() != float64(100+G-1) {
+				c.Violation("snapshot-gauge-first-use", map[string]interface{}{"why": fmt.Sprintf("%s = %v; %d goroutines obtained it together, then each handle was updated in turn, the last one to %d", x.Name(), x.Value(), G, 100+G-1), "case": desc})
 			}
 		}
 		for _, k := range []string{"c", "t", "h", "g"} {
